@@ -249,6 +249,46 @@ def _random_case(draw, hi):
     return case
 
 
+def check_twins(case: dict):
+    """mazes of different shapes whose connection arrays hold the same flags in the same flat order (3x4 / 4x3 / 2x6 / 6x2 ...), queried
+    one after the other in one process: an answer must depend on the shape too, not only on the flags"""
+    nt = False
+    for r, c in case["order"]:
+        g = {"r": r, "c": c, "cl": case["cl"]}
+        require(not M.boundary_bits_set(g), "C13:harness:twin-invalid", f"{r}x{c} {case['cl']}")
+        allc = [(i, j) for i in range(r) for j in range(c)]
+        pairs = [(u, v) for u in allc for v in allc][:: max(1, len(allc) // 6)]
+        for u, v in M.lattice_edges(r, c):
+            pairs += [(u, v), (v, u)]
+        nt = _check_graph(g, allc, pairs, [], case.get("np_seed", 0), sig="C13:twins") or nt
+    return {"nt": nt, "labels": ["twins", "x".join(f"{r}{c}" for r, c in case["order"][:2])]}
+
+
+def _twin_shapes():
+    out = []
+    for cells in (4, 6, 8, 9, 12, 16, 18, 20, 24):
+        shapes = [(r, cells // r) for r in range(1, cells + 1) if cells % r == 0]
+        out += [(a, b) for a in shapes for b in shapes if a != b]
+    return out
+
+
+@st.composite
+def _twins(draw):
+    (r1, c1), (r2, c2) = draw(st.sampled_from(_twin_shapes()))
+    n = 2 * r1 * c1
+    ok1 = {M.edge_bit(r1, c1, u, v) for u, v in M.lattice_edges(r1, c1)}
+    ok2 = {M.edge_bit(r2, c2, u, v) for u, v in M.lattice_edges(r2, c2)}
+    both = sorted(ok1 & ok2)
+    p = draw(st.sampled_from([0.0, 0.3, 0.6, 1.0]))
+    picks = draw(st.lists(st.floats(0, 1, allow_nan=False), min_size=len(both), max_size=len(both)))
+    bits = ["0"] * n
+    for k, x in zip(both, picks):
+        if x < p:
+            bits[k] = "1"
+    order = [[r1, c1], [r2, c2], [r1, c1]]
+    return {"cl": "".join(bits), "order": order, "np_seed": draw(st.integers(0, 2**32 - 1))}
+
+
 @st.composite
 def _big_case(draw):
     """grids of 64..127 cells per side: index arithmetic (row + col, row * cols + col, 2 * row + 1) leaves the int8 range"""
@@ -269,5 +309,6 @@ def subs(tier: str):
         Sub("forks-exhaustive<=3x3", check, "exhaustive", cases=_exhaustive_fork_cases, exhaustive_flag=True),
         *([] if q else [Sub("exhaustive-2x4-2x5-1xN", check, "exhaustive", cases=_exhaustive_medium, exhaustive_flag=True)]),
         Sub("random", check, "hypothesis", strategy=lambda: _random_case(15 if q else 25), examples=40 if q else 2000),
+        Sub("same-flags-other-shape", check_twins, "hypothesis", strategy=_twins, examples=20 if q else 400),
         Sub("large-grids", check, "hypothesis", strategy=_big_case, examples=3 if q else 20),
     ]
